@@ -184,55 +184,7 @@ class RepeatOnce(Expression):
     def generate(self, gen: Builder, matched_var: str, pairs_var: str) -> None:
         """Emit Python code for repeat one or more times."""
         gen.writeln("# <RepeatOnce>")
-        acc_pairs = gen.new_temp("children")
-        tmp_pairs = gen.new_temp("item_children")
-        count_var = gen.new_temp("count")
-        trivia_pos = gen.new_temp("trivia_pos")
-
-        gen.writeln(f"{trivia_pos} = state.pos")
-        gen.writeln(f"{acc_pairs}: list[Pair] = []")
-        gen.writeln(f"{tmp_pairs}: list[Pair] = []")
-        gen.writeln(f"{count_var} = 0")
-
-        gen.writeln("while True:")
-        with gen.block():
-            gen.writeln("state.checkpoint()")
-            # Parse one item
-            self.expression.generate(gen, matched_var, tmp_pairs)
-
-            gen.writeln(f"if {matched_var}:")
-            with gen.block():
-                gen.writeln(f"{count_var} += 1")
-                gen.writeln("state.ok()")
-
-                # Commit the item immediately
-                gen.writeln(f"{acc_pairs}.extend({tmp_pairs})")
-                gen.writeln(f"{tmp_pairs}.clear()")
-
-                # Save pos before trivia
-                gen.writeln(f"{trivia_pos} = state.pos")
-
-                # Parse trivia after item.
-                # Non-silent trivia will be added to acc_pairs on the next
-                # iteration if it succeeds.
-                gen.writeln(f"parse_trivia(state, {tmp_pairs})")
-
-            gen.writeln("else:")
-            with gen.block():
-                # Restore checkpoint and also rewind trivia pos
-                gen.writeln("state.restore()")
-                gen.writeln(f"state.pos = {trivia_pos}")
-                gen.writeln("break")
-
-        # After the loop, validate minimum
-        gen.writeln(f"if {count_var} < 1:")
-        with gen.block():
-            gen.writeln(f"{matched_var} = False")
-        gen.writeln("else:")
-        with gen.block():
-            gen.writeln(f"{pairs_var}.extend({acc_pairs})")
-            gen.writeln(f"{matched_var} = True")
-
+        self._unrolled.generate(gen, matched_var, pairs_var)
         gen.writeln("# </RepeatOnce>")
 
     def children(self) -> list[Expression]:
@@ -272,44 +224,7 @@ class RepeatExact(Expression):
     def generate(self, gen: Builder, matched_var: str, pairs_var: str) -> None:
         """Emit Python code for a bounded repetition expression (E{num})."""
         gen.writeln(f"# <RepeatExact n={self.number}>")
-
-        start_pos = gen.new_temp("start")
-        tmp_pairs = gen.new_temp("children")
-        count_var = gen.new_temp("count")
-
-        gen.writeln(f"{start_pos} = state.pos")
-        gen.writeln(f"{tmp_pairs}: list[Pair] = []")
-        gen.writeln(f"{count_var} = 0")
-
-        gen.writeln("while True:")
-        with gen.block():
-            gen.writeln("state.checkpoint()")
-            self.expression.generate(gen, matched_var, tmp_pairs)
-
-            gen.writeln(f"if {matched_var}:")
-            with gen.block():
-                gen.writeln(f"{count_var} += 1")
-                gen.writeln("state.ok()")
-                # Stop if we've already reached the maximum
-                gen.writeln(f"if {count_var} >= {self.number}:")
-                with gen.block():
-                    gen.writeln("break")
-                gen.writeln(f"parse_trivia(state, {tmp_pairs})")
-            gen.writeln("else:")
-            with gen.block():
-                gen.writeln("state.restore()")
-                gen.writeln("break")
-
-        # After the loop, validate minimum
-        gen.writeln(f"if {count_var} < {self.number}:")
-        with gen.block():
-            gen.writeln(f"state.pos = {start_pos}")
-            gen.writeln(f"{matched_var} = False")
-        gen.writeln("else:")
-        with gen.block():
-            # Append successful children to the parent pair list
-            gen.writeln(f"{pairs_var}.extend({tmp_pairs})")
-
+        self._unrolled.generate(gen, matched_var, pairs_var)
         gen.writeln("# </RepeatExact>")
 
     def children(self) -> list[Expression]:
@@ -349,41 +264,7 @@ class RepeatMin(Expression):
     def generate(self, gen: Builder, matched_var: str, pairs_var: str) -> None:
         """Emit Python code for a bounded repetition expression (E{min,})."""
         gen.writeln(f"# <RepeatMin n={self.number}>")
-
-        start_pos = gen.new_temp("start")
-        tmp_pairs = gen.new_temp("children")
-        count_var = gen.new_temp("count")
-
-        gen.writeln(f"{start_pos} = state.pos")
-        gen.writeln(f"{tmp_pairs}: list[Pair] = []")
-        gen.writeln(f"{count_var} = 0")
-
-        gen.writeln("while True:")
-        with gen.block():
-            gen.writeln("state.checkpoint()")
-            self.expression.generate(gen, matched_var, tmp_pairs)
-            gen.writeln(f"if {matched_var}:")
-            with gen.block():
-                gen.writeln(f"{count_var} += 1")
-                gen.writeln("state.ok()")
-                # TODO: backtrack last trivia
-                gen.writeln(f"parse_trivia(state, {tmp_pairs})")
-            gen.writeln("else:")
-            with gen.block():
-                gen.writeln("state.restore()")
-                gen.writeln("break")
-
-        # After the loop, validate minimum
-        gen.writeln(f"if {count_var} < {self.number}:")
-        with gen.block():
-            gen.writeln(f"state.pos = {start_pos}")
-            gen.writeln(f"{matched_var} = False")
-        gen.writeln("else:")
-        with gen.block():
-            gen.writeln(f"{matched_var} = True")
-            # Append successful children to the parent pair list
-            gen.writeln(f"{pairs_var}.extend({tmp_pairs})")
-
+        self._unrolled.generate(gen, matched_var, pairs_var)
         gen.writeln("# </RepeatMin>")
 
     def children(self) -> list[Expression]:
@@ -423,34 +304,7 @@ class RepeatMax(Expression):
     def generate(self, gen: Builder, matched_var: str, pairs_var: str) -> None:
         """Emit Python code for a bounded repetition expression (E{,max})."""
         gen.writeln(f"# <RepeatMax n={self.number}>")
-
-        tmp_pairs = gen.new_temp("children")
-        count_var = gen.new_temp("count")
-
-        gen.writeln(f"{tmp_pairs}: list[Pair] = []")
-        gen.writeln(f"{count_var} = 0")
-
-        gen.writeln("while True:")
-        with gen.block():
-            gen.writeln("state.checkpoint()")
-            self.expression.generate(gen, matched_var, tmp_pairs)
-            gen.writeln(f"if {matched_var}:")
-            with gen.block():
-                gen.writeln(f"{count_var} += 1")
-                gen.writeln("state.ok()")
-                # Stop if we've already reached the maximum
-                gen.writeln(f"if {count_var} >= {self.number}:")
-                with gen.block():
-                    gen.writeln("break")
-                gen.writeln(f"parse_trivia(state, {tmp_pairs})")
-            gen.writeln("else:")
-            with gen.block():
-                gen.writeln("state.restore()")
-                gen.writeln("break")
-
-        gen.writeln(f"{matched_var} = True")
-        # Append successful children to the parent pair list
-        gen.writeln(f"{pairs_var}.extend({tmp_pairs})")
+        self._unrolled.generate(gen, matched_var, pairs_var)
         gen.writeln("# </RepeatMax>")
 
     def children(self) -> list[Expression]:
@@ -494,43 +348,7 @@ class RepeatMinMax(Expression):
     def generate(self, gen: Builder, matched_var: str, pairs_var: str) -> None:
         """Emit Python code for a bounded repetition expression (E{min,max})."""
         gen.writeln(f"# <RepeatMinMax min={self.min} max={self.max}>")
-
-        start_pos = gen.new_temp("start")
-        tmp_pairs = gen.new_temp("children")
-        count_var = gen.new_temp("count")
-
-        gen.writeln(f"{start_pos} = state.pos")
-        gen.writeln(f"{tmp_pairs}: list[Pair] = []")
-        gen.writeln(f"{count_var} = 0")
-
-        gen.writeln("while True:")
-        with gen.block():
-            gen.writeln("state.checkpoint()")
-            self.expression.generate(gen, matched_var, tmp_pairs)
-            gen.writeln(f"if {matched_var}:")
-            with gen.block():
-                gen.writeln(f"{count_var} += 1")
-                gen.writeln("state.ok()")
-                # Stop if we've already reached the maximum
-                gen.writeln(f"if {count_var} >= {self.max}:")
-                with gen.block():
-                    gen.writeln("break")
-                gen.writeln(f"parse_trivia(state, {tmp_pairs})")
-            gen.writeln("else:")
-            with gen.block():
-                gen.writeln("state.restore()")
-                gen.writeln("break")
-
-        gen.writeln(f"if {count_var} < {self.min}:")
-        with gen.block():
-            gen.writeln(f"state.pos = {start_pos}")
-            gen.writeln(f"{matched_var} = False")
-        gen.writeln("else:")
-        with gen.block():
-            gen.writeln(f"{matched_var} = True")
-            # Append successful children to the parent pair list
-            gen.writeln(f"{pairs_var}.extend({tmp_pairs})")
-
+        self._unrolled.generate(gen, matched_var, pairs_var)
         gen.writeln("# </RepeatMinMax>")
 
     def children(self) -> list[Expression]:
